@@ -115,6 +115,24 @@ pub fn directed(emit: &mut dyn FnMut(String)) {
         emit(format!("(storageWrite 0 | (add 0 | {} {}) (caller 1 |))", mapkey(slot), k("0x3")));
         emit(format!("(storageWrite 0 | (add 0 | (sha3 0 | (concat 0 | {})) (callValue 1 |)) (caller 1 |))", k(slot)));
     }
+    // a storage access and a look-alike hash in the *same* tree, the hash outside the access
+    let load0 = format!("(sLoad 0 | {} (unwrittenStorageValue 0 | {}))", k("0x0"), k("0x0"));
+    for slot in ["0x5", "0x270f", "0xffffffffffffffffffffffffffffffff"] {
+        emit(format!("(equals 0 | {load0} {})", mapkey(slot)));
+        emit(format!("(add 0 | {} {load0})", mapkey(slot)));
+        emit(format!("(return 0 | (concat 0 | {load0} {}))", mapkey(slot)));
+        emit(format!("(log 0 | (concat 0 | {load0}) {})", mapkey(slot)));
+        emit(format!("(isZero 0 | (equals 0 | {load0} (add 0 | (sha3 0 | (concat 0 | {})) (callValue 1 |))))", k(slot)));
+    }
+    // literal keys around the end of the recognised-hash table: keccak(9999) is array data of
+    // slot 9999, keccak(10000) is an ordinary 256-bit literal
+    for i in [0u64, 1, 9998, 9999, 10000, 10001] {
+        let h = format!("0x{:x}", storage_layout_extractor::tc::lift::proxy_slots::ProxySlots::sha3_known_words(&[
+            storage_layout_extractor::vm::value::known::KnownWord::from(i as usize)]).value_le());
+        emit(format!("(sLoad 0 | {} (unwrittenStorageValue 0 | {}))", k(&h), k(&h)));
+        emit(format!("(storageWrite 0 | {} (callDataSize 1 |))", k(&h)));
+        emit(format!("(storageWrite 0 | {} (callDataSize 1 |)) $ (sLoad 0 | {} (unwrittenStorageValue 0 | {}))", k(&h), k(&h), k(&h)));
+    }
     // masks and shifts
     let sload = format!("(sLoad 0 | {} (unwrittenStorageValue 0 | {}))", k("0x0"), k("0x0"));
     let masks = ["0xff", "0xff00", "0xffffffffffffffffffffffffffffffffffffffff", "0x8000000000000000000000000000000000000000000000000000000000000000",
@@ -127,6 +145,14 @@ pub fn directed(emit: &mut dyn FnMut(String)) {
         }
     }
     // sizes
+    // nested masks: a narrow field cut high in the word, masked again with a wider mask
+    for s in ["0xc8", "0xf0", "0xfa", "0xff"] {
+        for (m1, m2) in [("0x3f", "0xffffffffffffffffffffffffffffffff"), ("0xff", "0xffff"), ("0x1", "0xffffffffffffffffffffffffffffffffffffffff"),
+                         ("0xffffffffffffffffffffffffffffffff", "0x3f")] {
+            emit(format!("(storageWrite 0 | {} (and 0 | (and 0 | (rightShift 0 | {} {sload}) {}) {}))", k("0x1"), k(s), k(m1), k(m2)));
+            emit(format!("(storageWrite 0 | {} (and 0 | {} (and 0 | {} (rightShift 0 | {} {sload}))))", k("0x1"), k(m2), k(m1), k(s)));
+        }
+    }
     // (a `callData` node with a constant size other than 32 cannot come out of the machine:
     // CALLDATACOPY splits a constant size into 32-byte words, CALLDATALOAD reads one word)
     emit(format!("(storageWrite 0 | {} (callData 0 1 | {} {}))", k("0x2"), k("0x4"), k("0x20")));
